@@ -45,6 +45,10 @@ CHECKS = {
    text="Stream.tla models block assembly from decoder chunks of arbitrary sizes with the look-behind drop; TLC checks for all chunkings, sizes and legal request sequences that every stored/answered block holds exactly its byte range, nothing is lost or duplicated, and a legal caller never needs a dropped block. On the code, BlockReader::read_block over real gz/bz2/xz/lz4 containers (levels, header fields, multi-block bz2, lz4 block sizes/linked/checksums) must return the plain slices at every block-size class and the size learned up front must equal the decoded size; end-to-end the stdout of every stored form (incl. tar ustar/gnu/pax with 1..4 members) must equal the plain file's for text and accounting records with/without a window at several --blocksz, and for the shipped evtx/journal forms.",
    note="Single-stream files only; compressor parameters limited to python gzip/bz2/lzma/tarfile and lz4_flex; one evtx file and the shipped journals.",
    technique="TLA+ model checking (TLC) of chunk assembly + slice-exact replay on real containers + plain-vs-stored differential runs"),
+ "C07": dict(engine="S4Run", category="fault_enumeration", design_ref="DESIGN.md §6 C07",
+   text="S4Run.tla with faulty script shapes (FileInfo error, mid-stream error) for 1..2 of N<=3 sources is checked by TLC for isolation of the healthy sources, termination and the meaning of the exit status. Crash-freedom is decided by executing enumerated faults on the real binary: valid base files of every kind and container (text plain/gz/bz2/xz/lz4/tar, utmp, lastlog, acct, NetBSD utmpx, FreeBSD utx, evtx, journal and compressed forms) are truncated at stratified/every position, corrupted by single and multi-byte changes per offset class (with the leading fields of the first records always included), replaced by random/zero strings of assorted lengths, and presented under every mismatching name, alone and next to 1..3 valid sources; exit status in {0,1}, no panic/abort/signal, wall-clock bound, valid sources' lines all printed in order, no temp file left.",
+   note="The model decides isolation/termination; crash-freedom is by execution over the enumerated faults only. Valid neighbours are text logs with attributable lines.",
+   technique="TLA+ model checking of fault shapes + fault enumeration on the real binary"),
 }
 NA_REASON = "check not built yet in this session (work in progress; will be claimed when its machinery exists)"
 
